@@ -87,7 +87,7 @@ fn gen_cases(rng: &mut Rng, tier: Tier) -> Vec<Value> {
             cfg.metric = true;
             // every sixth problem asks for vicinity clustering (jobs are merged into cluster jobs before the search and
             // expanded afterwards); only the partition specification is judged on those (commute is not modelled)
-            let clustered = i % 6 == 5;
+            let clustered = i % 6 == 5 || i % 12 == 1;
             if clustered {
                 cfg.multi_jobs = false;
                 cfg.jobs = (8, 20);
@@ -128,12 +128,30 @@ fn gen_cases(rng: &mut Rng, tier: Tier) -> Vec<Value> {
         .collect()
 }
 
-/// operator histories of C04, those with explicit objectives first (the order of the objectives decides which partial
-/// results the composite operators keep); the solution the history ends in is judged like a solver output
+/// operator histories of C04 (three independent batches of its generator), in this order of preference: explicit objectives
+/// that do not rank minimize-unassigned first (a result with more unassigned jobs can win a comparison inside a composite
+/// operator), long tours (leg sampling), other explicit objectives, the rest. EVERY solution of the history - one per step,
+/// rendered by the real writer - is judged like a solver output
 fn history_cases(rng: &mut Rng, tier: Tier) -> Vec<Value> {
-    let keep = if tier == Tier::Thorough { 400 } else { 40 };
-    let mut all: Vec<Value> = c04::gen_cases(&mut rng.fork(), tier).into_iter().filter(|c| c["k"] == "history").collect();
-    all.sort_by_key(|c| c["sp"]["objectives"].as_array().is_none_or(|o| o.is_empty()));
+    let keep = if tier == Tier::Thorough { 500 } else { 60 };
+    let batches = if tier == Tier::Thorough { 1 } else { 3 };
+    let mut all: Vec<Value> =
+        (0..batches).flat_map(|_| c04::gen_cases(&mut rng.fork(), tier)).filter(|c| c["k"] == "history").collect();
+    let rank = |c: &Value| {
+        let objectives = c["sp"]["objectives"].as_array().cloned().unwrap_or_default();
+        let first = objectives.iter().map(|o| o["type"].as_str().unwrap_or("")).find(|t| *t != "maximize-value").unwrap_or("").to_string();
+        let long = c["sp"]["jobs"].as_array().map(|j| j.len()).unwrap_or(0) >= 30;
+        if !objectives.is_empty() && first != "minimize-unassigned" {
+            0
+        } else if long {
+            1
+        } else if !objectives.is_empty() {
+            2
+        } else {
+            3
+        }
+    };
+    all.sort_by_key(rank);
     all.truncate(keep);
     for c in all.iter_mut() {
         c["k"] = json!("ophist");
@@ -146,11 +164,12 @@ fn exec_history(case: &Value) -> Value {
     c["k"] = json!("history");
     let out = c04::exec(&c);
     let Some(steps) = out.get("steps").and_then(|s| s.as_array()) else { return out };
-    let Some(last) = steps.iter().rev().find(|s| !s["solution"].is_null()) else {
+    let solutions: Vec<Value> = steps.iter().filter(|s| !s["solution"].is_null()).map(|s| json!({"op": s["op"], "solution": s["solution"]})).collect();
+    let Some(last) = solutions.last() else {
         return json!({"error": "history without a rendered solution", "sp_final": out["sp_final"]});
     };
     let ops: Vec<&str> = steps.iter().filter_map(|s| s["op"].as_str()).collect();
-    json!({"config": format!("operator history: {}", ops.join(" > ")), "sp_final": out["sp_final"], "solution": last["solution"]})
+    json!({"config": format!("operator history: {}", ops.join(" > ")), "sp_final": out["sp_final"], "solution": last["solution"], "step_solutions": solutions})
 }
 
 fn solve_with_config(problem: Arc<vrp_core::models::Problem>, config: &Value) -> Result<Value, String> {
